@@ -258,13 +258,15 @@ func columnsLayout(context *layoutContext, box_ bo.BlockBoxITF, bottomSpace pr.F
 						nextBox, _ := blockBoxLayout(context, columnBox, pr.Inf,
 							columnSkipStack, containingBlock, true, new([]*AbsolutePlaceholder), new([]*AbsolutePlaceholder), new([]pr.Float),
 							false, -1)
-						for _, child := range nextBox.Box().Children {
-							if child.Box().IsInNormalFlow() {
-								nextBoxHeight = child.Box().MarginHeight()
-								break
+						if nextBox != nil { // nothing may be rendered (nested columns skipping their box)
+							for _, child := range nextBox.Box().Children {
+								if child.Box().IsInNormalFlow() {
+									nextBoxHeight = child.Box().MarginHeight()
+									break
+								}
 							}
+							removePlaceholders(context, []bo.Box{nextBox}, new([]*AbsolutePlaceholder), new([]*AbsolutePlaceholder))
 						}
-						removePlaceholders(context, []bo.Box{nextBox}, new([]*AbsolutePlaceholder), new([]*AbsolutePlaceholder))
 					}
 				}
 				// else
